@@ -17,6 +17,14 @@ CHECKS = {
   text="TLC model-checks the depth search (transcribed from NNode.Depth with its persistent traversal marks) over every link set of a small node scope and every query sequence with caps: longest-path equality on DAGs, termination/bounds on cyclic graphs, the cap law, clean marks and repeat-stability are invariants; every finished behaviour (and simulated behaviours on larger graphs with arbitrary incoming order) is replayed on real networks with result, error and marks compared after each query.",
   note="Exhaustive for 1 sensor + 3 neurons (quick), 4 neurons with <= 7 links (thorough); larger graphs by TLC simulation only. Termination decided by a 5 s watchdog. Trusted: TLC, the harness' network construction.",
   technique=B2, ref="DESIGN.md 7/C14"),
+ "C19": dict(
+  text="The statistics are specified as exact integer/rational definitions; TLC checks their laws (ordering of quantiles, permutation invariance, variance zero iff constant, ...) on every series in scope and emits every series in every order, the empty series and every experiment in scope with the values the definitions assign; the replayer builds real Floats / Experiment / Trial / Generation values and compares every accessor.",
+  note="Exhaustive for series over 4 values up to length 4 (quick) / 5 values up to length 6 (thorough) at three power-of-two scalings, experiments up to 2x2 (quick) / 3x2 (thorough) trials x generations. Floating-point tolerance 1e-12 only where a division is involved. Trusted: TLC, the replayer's construction of experiment records.",
+  technique=B2, ref="DESIGN.md 7/C19"),
+ "C20": dict(
+  text="Experiment.Execute is specified as a step machine (one action per step visible to evaluator, observer or caller); the protocol clauses of C20 are invariants over its logs, checked by TLC for every script of outcomes (ok / solved / evaluator error / context cancelled while evaluating, with and without solved) in scope with and without an observer; every behaviour is replayed through the real Execute with a scripted evaluator and a recording observer under both epoch executors and compared log for log.",
+  note="Exhaustive for 2x2, 1x3, 3x1, 2x0 (quick) plus 2x3 (thorough) trials x generations. Population freshness and turnover are observed through pointer identity of populations and organisms. Trusted: TLC, the scripted evaluator/observer.",
+  technique=B2, ref="DESIGN.md 7/C20"),
 }
 
 ALL = [json.loads(l)["id"] for l in open(os.path.join(VERIF, "properties.jsonl"))]
